@@ -54,7 +54,8 @@ def make_sparse_from_indices_and_values(interp_indices, interp_values, num_rows)
         value_tensor = value_tensor.index_select(0, nonzero_indices)
     else:
         index_tensor = index_tensor.resize_(interp_indices.dim(), 1).zero_()
-        value_tensor = value_tensor.resize_(1).zero_()
+        # NOTE: value_tensor may be a view of the caller's interp_values, so it must not be resized / zeroed in place
+        value_tensor = torch.zeros(1, dtype=value_tensor.dtype, device=value_tensor.device)
 
     # Make the sparse tensor
     type_name = value_tensor.type().split(".")[-1]  # e.g. FloatTensor
